@@ -14,7 +14,7 @@ rc, o = sh(f"git -C /repo worktree add --detach {wt} HEAD")
 assert rc == 0, o
 meta = json.load(open(os.path.join(out, "meta.json")))
 cmd = meta["demo_cmd"]
-m = re.search(r"-run\s+'?([A-Za-z0-9_|]+)'?", cmd)
+m = re.search(r"-run\s+'?\^?([A-Za-z0-9_|]+)\$?'?", cmd)
 pat = m.group(1)
 pkg = re.findall(r"(\./[A-Za-z0-9_/]+)/?\s*$", cmd.strip())[0].rstrip("/")
 res = {}
